@@ -12,6 +12,7 @@ import json
 
 import numpy as np
 
+from .. import builders as B
 from .. import tlc
 from ..common import Run, check_exc, ensure_repo, pmap, seed
 from ..onecomp import run_comp, tube_surface
@@ -220,6 +221,41 @@ def _random_job(k):
     return {"k": k, "bad": bad, "case": {"nsurf": ns, "user_sref": user}}
 
 
+def _units_job(k):
+    """OASLaws.Reexpress on the aerostructural / structural models: the same physical flight condition, mission data,
+    point masses, thrusts and loads handed over in another unit system (knots, radians, slug/ft^3, lbm, lbf, 1/h, feet)
+    gives the same functionals."""
+    from .c12 import _cmp, _key_outputs
+
+    rng = np.random.default_rng(seed() * 151 + k)
+    bad = []
+    if k % 3 == 2:
+        s = dict(name="wing", nx=2, ny=5, sym=True, side="L", shape="all", fem=["tube", "wingbox"][k % 2], relief=True, span=20.0, chord=3.0)
+        ny = 5
+        loads = np.zeros((ny, 6))
+        loads[:, 2] = rng.uniform(2e3, 2e4, ny)
+        loads[:, 4] = rng.uniform(-1e3, 1e3, ny)
+        res = []
+        for u in ("SI", "alt"):
+            m = B.StructModel(s, loads=loads, units=u)
+            m.run()
+            res.append({kk: np.array(m.prob.get_val("wing." + kk), dtype=float) for kk in ("disp", "vonmises", "failure", "structural_mass")})
+        for kk, e in _cmp(res[1], res[0], 1e-9):
+            bad.append(("units:struct:%s" % kk, e))
+        return {"k": k, "bad": bad, "case": {"model": "struct", "fem": s["fem"]}}
+    fem = ["tube", "wingbox"][k % 2]
+    s = dict(name="wing", nx=2, ny=3 + k % 2, sym=True, side="L", shape=["swept", "all"][k % 2], visc=True, wave=fem == "wingbox", fem=fem, relief=True, fuel=fem == "wingbox", npm=1 if k % 4 < 2 else 0, span=20.0, chord=3.0)
+    flow = dict(alpha=float(rng.uniform(3, 6)), v=float(rng.uniform(170, 230)), rho=float(rng.uniform(0.4, 0.8)), Mach_number=0.6, load_factor=float(rng.choice([1.0, 2.5])), R=float(rng.uniform(2e6, 6e6)), W0=float(rng.uniform(3e3, 8e3)))
+    res = []
+    for u in ("SI", "alt"):
+        m = B.ASModel([s], flow=flow, rng=np.random.default_rng(7), units=u)
+        m.run()
+        res.append(_key_outputs(m))
+    for kk, e in _cmp(res[1], res[0], 1e-8):
+        bad.append(("units:as:%s" % kk.split(".")[-1], e))
+    return {"k": k, "bad": bad, "case": {"model": "aerostruct", "fem": fem, "point_masses": s["npm"]}}
+
+
 def run(tier, only=None):
     R = Run("C17", tier, "model_checking")
     res = tlc.run("KFunc", "KFunc.cfg", workers=8)
@@ -235,6 +271,10 @@ def run(tier, only=None):
         R.case(["random", r["k"]], True, sample=r["case"] if r["k"] % 29 == 0 else None, section="random")
         for sig in r["bad"]:
             R.violation(sig, {"k": r["k"], "case": r["case"]})
+    for r in check_exc(pmap(_units_job, range(12 if tier == "quick" else 120))):
+        R.case(["units", r["k"]], True, sample=r["case"] if r["k"] % 5 == 0 else None, section="units")
+        for sig, e in r["bad"]:
+            R.violation(sig, {"k": r["k"], "case": r["case"], "err": e})
     for r in check_exc(pmap(_atmos_job, range(4 if tier == "quick" else 16))):
         R.case(["atmos", r["k"]], True, section="atmos")
         for sig in r["bad"]:
